@@ -1,5 +1,5 @@
 import EdpVerif.Impl.Procs
-import EdpVerif.Generated.Misc
+import EdpVerif.Generated.MiscC18
 /-!
 The behaviours clause of C18, function by function (core Lean only, linked into the driver):
 
